@@ -10,6 +10,7 @@ import (
 	"fmt"
 	"io"
 	"math/big"
+	"runtime"
 	"sync"
 
 	"github.com/bilibili/smgo/zzverif/hk"
@@ -445,4 +446,85 @@ func withGlobalRand(rd io.Reader, f func(src io.Reader)) {
 	crand.Reader = rd
 	defer func() { crand.Reader = saved; globalRandMu.Unlock() }()
 	f(crand.Reader)
+}
+
+
+// stackHungryReader uses a lot of stack inside Read (recursion), so that the CALLER's stack is moved while the
+// library waits for its randomness - the moment a raw address of the candidate buffer goes stale.
+type stackHungryReader struct {
+	inner  io.Reader
+	hungry bool
+	used   bool
+}
+
+//go:noinline
+func burnStack(n int, acc *[64]byte) byte {
+	var local [64]byte
+	local[n%64] = acc[(n+1)%64] + 1
+	if n == 0 {
+		return local[0]
+	}
+	return burnStack(n-1, &local) + local[n%64]
+}
+
+func (s *stackHungryReader) Read(p []byte) (int, error) {
+	if s.hungry && !s.used {
+		s.used = true
+		var a [64]byte
+		burnStack(6000, &a) // about 1 MiB of frames
+	}
+	return s.inner.Read(p)
+}
+
+// handoffReader models a device front end: Read hands the caller's buffer to a WORKER goroutine, which fills it (at most
+// `chunk` bytes per Read) and reports the count, while the caller is parked. From the second request on the worker first
+// runs a garbage collection: a parked goroutine with a large, mostly unused stack has its stack shrunk (moved) then, and a
+// buffer whose address was hidden from the runtime is left behind in the old copy.
+type handoffReader struct {
+	req  chan []byte
+	done chan handoffRes
+}
+
+type handoffRes struct {
+	n   int
+	err error
+}
+
+func newHandoffReader(inner io.Reader, chunk int) *handoffReader {
+	h := &handoffReader{req: make(chan []byte), done: make(chan handoffRes)}
+	go func() {
+		reqs := 0
+		for p := range h.req {
+			if reqs > 0 {
+				runtime.GC()
+			}
+			reqs++
+			if len(p) > chunk {
+				p = p[:chunk]
+			}
+			n, err := inner.Read(p)
+			h.done <- handoffRes{n, err}
+		}
+	}()
+	return h
+}
+
+func (h *handoffReader) Read(p []byte) (int, error) {
+	h.req <- p
+	r := <-h.done
+	return r.n, r.err
+}
+
+func (h *handoffReader) Close() { close(h.req) }
+
+// afterLargeStack runs f in a fresh goroutine that first used (and left) about `frames` x 100 bytes of stack
+func afterLargeStack(frames int, f func()) {
+	done := make(chan struct{})
+	go func() {
+		defer close(done)
+		var a [64]byte
+		burnStack(frames, &a)
+		f()
+	}()
+	<-done
 }
